@@ -390,13 +390,13 @@ func RunC05(ctx *vrun.Ctx) error {
 		}
 	} else {
 		runs = []cfgRun{
-			{cfg: "blk.cfg", graph: true, maxPaths: 1500, timeout: 5 * time.Minute, heapGB: 6},
+			{cfg: "blk.cfg", graph: true, maxPaths: 1200, timeout: 5 * time.Minute, heapGB: 6},
 			{cfg: "pow.cfg", graph: true, maxPaths: 600, timeout: 5 * time.Minute, heapGB: 6},
 			{cfg: "cur.cfg", graph: true, maxPaths: 800, timeout: 5 * time.Minute, heapGB: 6},
 			{cfg: "curmix.cfg", graph: true, maxPaths: 800, timeout: 5 * time.Minute, heapGB: 6},
 			{cfg: "iso.cfg", graph: true, maxPaths: 600, timeout: 5 * time.Minute, heapGB: 6},
-			{cfg: "isoblk.cfg", graph: true, maxPaths: 1000, timeout: 5 * time.Minute, heapGB: 6},
-			{cfg: "kvq.cfg", graph: true, maxPaths: 1500, timeout: 5 * time.Minute, heapGB: 6},
+			{cfg: "isoblk.cfg", graph: true, maxPaths: 700, timeout: 5 * time.Minute, heapGB: 6},
+			{cfg: "kvq.cfg", graph: true, maxPaths: 1000, timeout: 5 * time.Minute, heapGB: 6},
 		}
 	}
 	if sel := os.Getenv("VERIF_FFLDB_CFGS"); sel != "" { // development aid: restrict the configurations
@@ -427,7 +427,7 @@ func RunC05(ctx *vrun.Ctx) error {
 				treapDone <- fmt.Errorf("treap: %v", p)
 			}
 		}()
-		treapPaths := 1500
+		treapPaths := 1000
 		if ctx.Thorough {
 			treapPaths = 40000
 		}
